@@ -158,6 +158,9 @@ pub fn record(seed: u64, nev: usize, out: &str) {
         let mut beta: Vec<f64> = (0..p).map(|_| rng.range(-15, 15) as f64 / 10.0).collect();
         // large responses (mean of order 50..150): the log-link iteration starts far from the solution
         let large = (e / 18) % 3 == 2;
+        // tiny responses for the scale families (means around 1e-6: variance mu^2 far below any absolute floor)
+        let tiny = (e / 18) % 3 == 1 && (fam == "Gamma" || fam == "Exponential") && (e / 54) % 2 == 0;
+        if tiny { beta[0] = -14.0 + rng.below(10) as f64 / 10.0; for j in 1..p { beta[j] *= 0.25; } }
         if large { beta[0] = match fam { "Gaussian" => 80.0, "Bernoulli" => beta[0], _ => 4.0 + rng.below(8) as f64 / 10.0 }; for j in 1..p { beta[j] *= 0.25; } }
         let history: u8 = ((e / 6) % 3) as u8;
         let refit = history != 0;
@@ -174,7 +177,7 @@ pub fn record(seed: u64, nev: usize, out: &str) {
         }).collect();
         let tol = [1e-8, 1e-11, 1e-14][rng.below(3) as usize];
         let r = fit_hh(fam, &x, &y, if use_w { Some(&w[..]) } else { None }, if use_o { Some(&o[..]) } else { None }, alpha, tol, 200, history);
-        let base = json!({"family": fam, "design": kind, "scale": if large { "large-mean" } else { "unit" }, "history": if history == 1 { "refit" } else if history == 2 { "retry-after-failed-fit" } else { "fresh" }, "n": n, "p": p, "weights": use_w, "offset": use_o, "alpha_class": if alpha == 0.0 { 0 } else { 1 }, "tol_log10": tol.log10().round() as i64});
+        let base = json!({"family": fam, "design": kind, "scale": if large { "large-mean" } else if tiny { "tiny-mean" } else { "unit" }, "history": if history == 1 { "refit" } else if history == 2 { "retry-after-failed-fit" } else { "fresh" }, "n": n, "p": p, "weights": use_w, "offset": use_o, "alpha_class": if alpha == 0.0 { 0 } else { 1 }, "tol_log10": tol.log10().round() as i64});
         let mut ev = base.as_object().unwrap().clone();
         match r {
             Some(Ok(ft)) => {
@@ -194,11 +197,14 @@ pub fn record(seed: u64, nev: usize, out: &str) {
                 ev.insert("coef_max".into(), json!(ft.coef.iter().fold(0.0f64, |m, c| m.max(c.abs()))));
                 let predok = { let pr = &ft.pred; (0..n).all(|i| { let h = (0..p).map(|j| x[i * p + j] * ft.coef[j]).sum::<f64>() + o[i];
                     let m = match fam { "Gaussian" => h, "Bernoulli" => 1.0 / (1.0 + (-h).exp()), _ => h.exp() }; (pr[i] - m).abs() <= 1e-12 * m.abs().max(1.0) }) };
+                // the reported deviance is the family's deviance at the fitted means (weighted fits included)
+                let dd = deviance_def(fam, &y, &ft.pred);
+                ev.insert("deviance_is_definition".into(), json!((ft.dev - dd).abs() <= 1e-9 * dd.abs().max(1.0)));
                 ev.insert("out".into(), json!("ok")); ev.insert("score_rel_log2".into(), json!(if rel <= 0.0 { -1074 } else { rel.log2().ceil() as i64 }));
                 ev.insert("finite".into(), json!(ft.coef.iter().chain(ft.se.iter()).all(|v| v.is_finite()))); ev.insert("predict_is_inverse_link".into(), json!(predok));
             }
-            Some(Err(_)) => { ev.insert("out".into(), json!("err")); ev.insert("score_rel_log2".into(), json!(0)); ev.insert("score_abs_log2".into(), json!(0)); ev.insert("finite".into(), json!(true)); ev.insert("predict_is_inverse_link".into(), json!(true)); }
-            None => { ev.insert("out".into(), json!("panic")); ev.insert("score_rel_log2".into(), json!(0)); ev.insert("score_abs_log2".into(), json!(0)); ev.insert("finite".into(), json!(false)); ev.insert("predict_is_inverse_link".into(), json!(false)); }
+            Some(Err(_)) => { ev.insert("out".into(), json!("err")); ev.insert("score_rel_log2".into(), json!(0)); ev.insert("score_abs_log2".into(), json!(0)); ev.insert("deviance_is_definition".into(), json!(true)); ev.insert("finite".into(), json!(true)); ev.insert("predict_is_inverse_link".into(), json!(true)); }
+            None => { ev.insert("out".into(), json!("panic")); ev.insert("score_rel_log2".into(), json!(0)); ev.insert("score_abs_log2".into(), json!(0)); ev.insert("deviance_is_definition".into(), json!(false)); ev.insert("finite".into(), json!(false)); ev.insert("predict_is_inverse_link".into(), json!(false)); }
         }
         t.emit(Value::Object(ev));
     }
